@@ -94,11 +94,24 @@ pub fn exec(case: &Value) -> Value {
                         Ok(()) => json!("ok"),
                         Err(e) => crate::canon::compiler_err_kind(&e),
                     };
+                    // templates that arrive after the rule was loaded do not apply to it
+                    let mut late = vec![];
+                    for call in case["late_calls"].as_array().cloned().unwrap_or_default() {
+                        let text: String = call.as_array().map(|ds| ds.iter().map(|d| format!("---\n{}", tpl_yaml(d))).collect()).unwrap_or_default();
+                        late.push(match c.load_templates_from_str(&text) {
+                            Ok(()) => json!("ok"),
+                            Err(e) => crate::canon::compiler_err_kind(&e),
+                        });
+                    }
                     let rules = match c.rules() {
                         Ok(rs) => json!(rs.iter().map(rule_out).collect::<Vec<_>>()),
                         Err(e) => crate::canon::compiler_err_kind(&e),
                     };
-                    json!({"loads": loads, "rule_load": l, "rules": rules})
+                    if late.is_empty() {
+                        json!({"loads": loads, "rule_load": l, "rules": rules})
+                    } else {
+                        json!({"loads": loads, "rule_load": l, "late": late, "rules": rules})
+                    }
                 }))
                 .unwrap_or(json!("panic"));
                 if !outs.contains(&r) {
@@ -199,6 +212,12 @@ pub fn gen(tier: &str, seed: u64, out: &mut dyn FnMut(Value)) {
             calls.push(json!(docs));
         }
         let rule = json!({"name": "r", "matches": [["$m", ".x == '{{a}}-{{b}}-{{c}}-{{ab}}'"], ["$n", ".y == '{{zz}}{{a}}'"]], "condition": "$m or $n"});
-        out(json!({"op": "tpl_load", "calls": calls, "rule": rule, "instances": 4, "tag": "load sequences", "nt": true}));
+        if rng.chance(1, 3) {
+            // some templates only arrive after the rule
+            let late = json!([[[ [*rng.pick(&["a", "b", "c", "zz"]), *rng.pick(&["L", "{{a}}"])] ]]]);
+            out(json!({"op": "tpl_load", "calls": calls, "late_calls": late, "rule": rule, "instances": 4, "tag": "load sequences, templates after the rule", "nt": true}));
+        } else {
+            out(json!({"op": "tpl_load", "calls": calls, "rule": rule, "instances": 4, "tag": "load sequences", "nt": true}));
+        }
     }
 }
